@@ -668,10 +668,14 @@ func (rw *rewriter) stmts(list []ast.Stmt) []ast.Stmt {
 		rw.out.Statements++
 		rw.reset()
 		rw.header(s)
+		var y ast.Stmt
 		if rw.cls > 0 {
-			out = append(out, rw.site(s.Pos(), "stmt"))
+			y = rw.site(s.Pos(), "stmt")
 		}
-		rw.nested(s)
+		out = append(out, rw.nested(s, y != nil)...) // declarations needed by the loop rewrite
+		if y != nil {
+			out = append(out, y)
+		}
 		out = append(out, s)
 	}
 	return out
@@ -785,12 +789,16 @@ func (rw *rewriter) rangeHeader(s *ast.RangeStmt) {
 }
 
 // nested rewrites the statement lists nested in s and the function literals in its own expressions.
-func (rw *rewriter) nested(s ast.Stmt) {
+//
+// Loops whose header accesses memory get a yield at the top of the body. When the loop statement itself is
+// preceded by a yield (hasPre) the first iteration's yield would be back to back with it, so it is skipped
+// with a flag variable declared just before the loop; the declaration is returned to the caller.
+func (rw *rewriter) nested(s ast.Stmt, hasPre bool) (pre []ast.Stmt) {
 	switch s := s.(type) {
 	case *ast.BlockStmt:
 		s.List = rw.stmts(s.List)
 	case *ast.LabeledStmt:
-		rw.nested(s.Stmt)
+		return rw.nested(s.Stmt, hasPre)
 	case *ast.IfStmt:
 		if s.Init != nil {
 			ast.Inspect(s.Init, rw.funcLits)
@@ -799,7 +807,7 @@ func (rw *rewriter) nested(s ast.Stmt) {
 		s.Body.List = rw.stmts(s.Body.List)
 		switch e := s.Else.(type) {
 		case *ast.IfStmt:
-			rw.nested(e)
+			rw.nested(e, false)
 		case *ast.BlockStmt:
 			e.List = rw.stmts(e.List)
 		}
@@ -825,7 +833,9 @@ func (rw *rewriter) nested(s ast.Stmt) {
 		}
 		s.Body.List = rw.stmts(s.Body.List)
 		if iter != nil {
-			s.Body.List = append([]ast.Stmt{iter}, s.Body.List...)
+			var head []ast.Stmt
+			head, pre = rw.iterYield(iter, hasPre)
+			s.Body.List = append(head, s.Body.List...)
 		}
 	case *ast.RangeStmt:
 		rw.reset()
@@ -837,7 +847,9 @@ func (rw *rewriter) nested(s ast.Stmt) {
 		ast.Inspect(s.X, rw.funcLits)
 		s.Body.List = rw.stmts(s.Body.List)
 		if iter != nil {
-			s.Body.List = append([]ast.Stmt{iter}, s.Body.List...)
+			var head []ast.Stmt
+			head, pre = rw.iterYield(iter, hasPre)
+			s.Body.List = append(head, s.Body.List...)
 		}
 	case *ast.SwitchStmt:
 		if s.Init != nil {
@@ -866,4 +878,21 @@ func (rw *rewriter) nested(s ast.Stmt) {
 	default:
 		ast.Inspect(s, rw.funcLits)
 	}
+	return pre
+}
+
+// iterYield builds the statements put at the top of a loop body.
+func (rw *rewriter) iterYield(iter ast.Stmt, hasPre bool) (head, pre []ast.Stmt) {
+	if !hasPre {
+		return []ast.Stmt{iter}, nil
+	}
+	flag := fmt.Sprintf("verifIter%d", len(rw.out.Sites))
+	// verifIterN := false            (before the loop)
+	// if verifIterN { Yield(id) }; verifIterN = true   (top of the body)
+	pre = []ast.Stmt{&ast.AssignStmt{Lhs: []ast.Expr{ast.NewIdent(flag)}, Tok: token.DEFINE, Rhs: []ast.Expr{ast.NewIdent("false")}}}
+	head = []ast.Stmt{
+		&ast.IfStmt{Cond: ast.NewIdent(flag), Body: &ast.BlockStmt{List: []ast.Stmt{iter}}},
+		&ast.AssignStmt{Lhs: []ast.Expr{ast.NewIdent(flag)}, Tok: token.ASSIGN, Rhs: []ast.Expr{ast.NewIdent("true")}},
+	}
+	return head, pre
 }
